@@ -17,6 +17,7 @@ PROPS = {
     },
     "C04": {
         "gens": ["C04"],
+        "extra_engines": ["C04S"],
         "rule": "random in-domain filter trees (every operator, empty/singleton lists, repeated names, both kinds, exotic names/values) over random record sets with multi-valued tags, through count / fetch_all / scan(+offset/limit) / remove_all and the negated filter; non-trivial = case with >= 1 negation and >= 2 distinct operators whose counts are neither all 0 nor all = #records; distinct = hash of the case",
         "assumptions": [SQLITE, "tag-name and tag-value encryption injective (decryptability); no 12-byte HMAC prefix collision among the values in play (idealisation, hypothesis NoPrefixCollision)"],
         "trusted_base": [],
